@@ -13,7 +13,9 @@ ASSUMPTIONS = [
 
 def tasks(tier):
     from contracts import assoc_scu
-    return [S.ServeTask(), assoc_scu.CStoreScpTask("C19/")]
+    from contracts.dimse_frag import DecodeStepTask
+    # which context a received request "arrived on" is decided in decode_msg (the id of its last command fragment)
+    return [S.ServeTask(), assoc_scu.CStoreScpTask("C19/"), DecodeStepTask("C15/")]
 
 
 def replay(rec):
